@@ -2,7 +2,8 @@
 
 Space  : scope trees (vf/spaces/scopes.py): kinds {module, def, class, lambda, list comprehension,
          generator expression}, <= 2 children per scope, every assignment of one role per scope from
-         the role catalogue. quick: all trees with <= 3 scopes x 8 configurations; thorough: 4 scopes.
+         the role catalogue. quick: all trees with <= 3 scopes (3-scope trees under 4 of the 8 configurations: one unparser per
+         (wrapper, if-style) pair, default included); thorough: <= 4 scopes x 8 configurations.
 Oracle : CPython must compile and run the program without exception (else skipped, counted); then
          equal log (values observed before/after inner scopes run) and equal final globals.
 """
@@ -41,7 +42,7 @@ def shards(tier):
         k = 1 if n <= 3 else 8
         for si in range(nshapes):
             for r in range(k):
-                out.append((n, si, r, k, core.ALL_CFG))
+                out.append((n, si, r, k, core.ALL_CFG if (tier == "thorough" or n < 3) else [4, 1, 2, 7]))
     return out
 
 
